@@ -34,7 +34,7 @@ def decorate(h, i):
         if e["op"] == "addN" and k in (1, 3) and (i + j) % 3:
             # the same quads through the bulk interface of the view of one of the graphs they name (or of another graph)
             names = sorted({q[3] for q in e["qs"]})
-            e["op"], e["g"], e["how"] = "addN_view", (names[(i + j) % len(names)] if (i + j) % 5 else "g1"), ("batch" if k == 3 else "direct")
+            e["op"], e["g"], e["how"] = "addN_view", (names[(i + j) % len(names)] if (i + j) % 5 else "g1"), ("batch" if k == 3 else ("direct" if ((i + j) // 4) % 2 else "equal_id"))
         out.append(e)
     return out
 
